@@ -469,7 +469,13 @@ func init() {
 		var p WParams
 		json.Unmarshal(params, &p)
 		p.N = 1
-		return &c03Machine{w: NewWorld(p), ref: newRef(p.Type)}
+		m := &c03Machine{w: NewWorld(p), ref: newRef(p.Type)}
+		if p.Prefix == "arr4" { // non-initial start state: an array of four elements under key "a"
+			m.Apply(pt.Action{Op: "dput", K: "a", V: "ea"})
+			m.Apply(pt.Action{Op: "dins", T: "a", P: 0, N: 2, V: "p"})
+			m.Apply(pt.Action{Op: "dins", T: "a", P: 2, N: 2, V: "p"})
+		}
+		return m
 	}
 }
 
@@ -514,8 +520,8 @@ func c03Calls(ref *refModel, alpha string) []pt.Action {
 		add(pt.Action{Op: "ins1", P: n + 1, V: "p"})
 		add(pt.Action{Op: "ins1", P: 0, V: "nil"})
 		add(pt.Action{Op: "ins1", P: 0, V: "tnil"})
-		for _, p := range uniq(0, n-1) {
-			if p >= 0 {
+		for _, p := range uniq(0, n/2, n-1) {
+			if p >= 0 && p < n {
 				add(pt.Action{Op: "del1", P: p})
 				add(pt.Action{Op: "upd", P: p, V: "p", N: 1})
 			}
@@ -569,6 +575,10 @@ func c03Calls(ref *refModel, alpha string) []pt.Action {
 			add(pt.Action{Op: "dupd", T: t, P: n, V: "p", N: 1})
 			add(pt.Action{Op: "dupd", T: t, P: 0, V: "nil", N: 1})
 			add(pt.Action{Op: "darrdel1", T: t, P: 0})
+			if n >= 3 {
+				add(pt.Action{Op: "darrdel1", T: t, P: n / 2})
+				add(pt.Action{Op: "dupd", T: t, P: n / 2, V: "p", N: 2})
+			}
 			add(pt.Action{Op: "darrdel1", T: t, P: n})
 			add(pt.Action{Op: "darrdel", T: t, P: 0, N: 2})
 			add(pt.Action{Op: "dput", T: t, K: "a", V: "p"}) // wrong container kind
